@@ -133,10 +133,15 @@ func (s *Shrinker) Shrink(steps []*Step) []*Step {
 				st = ns
 			}
 		}
+		if st.Alt != nil {
+			c := *st
+			c.Alt = nil
+			try(&c)
+		}
 		switch st.Kind {
 		case KCommit:
 			if st.Torn != nil {
-				try(&Step{Kind: KCommit})
+				try(&Step{Kind: KCommit, Alt: st.Alt})
 			}
 		case KGenesis:
 			if st.Continue {
@@ -146,18 +151,18 @@ func (s *Shrinker) Shrink(steps []*Step) []*Step {
 			if st.Tx.Gas != 0 {
 				c := *st.Tx
 				c.Gas = 0
-				try(&Step{Kind: KTx, Tx: &c})
+				try(&Step{Kind: KTx, Tx: &c, Alt: st.Alt})
 			}
 			if st.Tx.BankFault != nil {
 				c := *st.Tx
 				c.BankFault = nil
-				try(&Step{Kind: KTx, Tx: &c})
+				try(&Step{Kind: KTx, Tx: &c, Alt: st.Alt})
 			}
 			if len(st.Tx.Msgs) > 1 {
 				for j := len(st.Tx.Msgs) - 1; j >= 0 && len(st.Tx.Msgs) > 1; j-- {
 					c := *st.Tx
 					c.Msgs = append(append([]jsonRaw(nil), st.Tx.Msgs[:j]...), st.Tx.Msgs[j+1:]...)
-					try(&Step{Kind: KTx, Tx: &c})
+					try(&Step{Kind: KTx, Tx: &c, Alt: st.Alt})
 				}
 			}
 		}
